@@ -10,7 +10,7 @@ use crate::kernel::guard::{guard, panic_key, Guarded};
 use crate::kernel::io::{IoPlan, SimWriter};
 use crate::kernel::report::{Ctx, Tier};
 use crate::kernel::rng::{fnv1a, mix, Rng};
-use crate::models::conv::{to_env, to_idl, to_type};
+use crate::models::conv::{to_env, to_idl_loose, to_type};
 use crate::models::gen::{gen_data_type, gen_env, TyKnobs, ValGen};
 use crate::models::rd;
 use crate::models::stype::*;
@@ -49,7 +49,15 @@ pub enum Stage {
     NewBuilder { default: bool },
     Arg { ty: String, vseed: u64, size: usize },
     /// value_arg_with_type on the task's builder
-    ValueArg { env: SEnv, ty: SType, val: AV },
+    ValueArg {
+        env: SEnv,
+        ty: SType,
+        val: AV,
+        /// non-zero: the value is handed over in one of the looser spellings the
+        /// re-annotation accepts (`conv::to_idl_loose`)
+        #[serde(default)]
+        loose: u64,
+    },
     /// an `arg` that fails in the middle of the value; the builder is abandoned afterwards
     FailArg(FailKind),
     /// serialize(SimWriter(plan))
@@ -59,7 +67,13 @@ pub enum Stage {
     /// Encode!(&v) / encode_one(&v), twice back to back (identical bytes expected)
     EncodeOne { ty: String, vseed: u64, size: usize, macro_api: bool },
     /// IDLArgs::to_bytes_with_types
-    ToBytesWithTypes { env: SEnv, tys: Vec<SType>, vals: Vec<AV> },
+    ToBytesWithTypes {
+        env: SEnv,
+        tys: Vec<SType>,
+        vals: Vec<AV>,
+        #[serde(default)]
+        loose: u64,
+    },
     /// IDLDeserialize::new_with_config on the task's message; `truncate` cuts the message (fault)
     NewDecoder { truncate: Option<usize>, quota: Option<usize> },
     /// get_value::<T>() for the next argument of the message
@@ -344,12 +358,12 @@ fn run_stage_(st: &mut TaskState, stage: &Stage, check_c03: bool) -> Out {
                 }
             }
         }
-        Stage::ValueArg { env, ty, val } => {
+        Stage::ValueArg { env, ty, val, loose } => {
             if st.builder_broken || st.builder.is_none() {
                 return Out::new(Class::Skipped, "no usable builder");
             }
             let b = st.builder.as_mut().unwrap();
-            let (tenv, tty, idl) = (to_env(env), to_type(ty), to_idl(val));
+            let (tenv, tty, idl) = (to_env(env), to_type(ty), to_idl_loose(val, *loose));
             match from_guard(guard(|| b.value_arg_with_type(&idl, &tenv, &tty).map(|_| ()).map_err(e2s))) {
                 Ok(()) => {
                     st.building.push(ArgRec::Untyped { env: env.clone(), ty: ty.clone(), val: val.clone() });
@@ -471,10 +485,10 @@ fn run_stage_(st: &mut TaskState, stage: &Stage, check_c03: bool) -> Out {
                 Err(o) => o,
             }
         }
-        Stage::ToBytesWithTypes { env, tys, vals } => {
+        Stage::ToBytesWithTypes { env, tys, vals, loose } => {
             let tenv = to_env(env);
             let ttys: Vec<_> = tys.iter().map(to_type).collect();
-            let args = candid::IDLArgs::new(&vals.iter().map(to_idl).collect::<Vec<_>>());
+            let args = candid::IDLArgs::new(&vals.iter().enumerate().map(|(i, v)| to_idl_loose(v, if *loose == 0 { 0 } else { loose.wrapping_add(i as u64) | 1 })).collect::<Vec<_>>());
             match from_guard(guard(|| args.to_bytes_with_types(&tenv, &ttys).map_err(e2s))) {
                 Ok(bytes) => {
                     let mut o = Out::new(Class::Ok, "");
@@ -952,9 +966,9 @@ fn history_before(sc: &Sc, t: usize, s: usize) -> Vec<String> {
 
 // ---------------------------------------------------------------- generation
 
-const REC: [&str; 24] = [
+const REC: [&str; 26] = [
     "List", "MutA", "MutB", "Rose", "Expr", "Vec<List>", "Option<MutA>", "Vec<MutB>", "Vec<Rose>", "Option<Box<Expr>>", "Vec<MutA>", "(List,Rose)", "BTreeMap<Int,List>", "BTreeMap<String,Rose>", "Option<List>", "Option<Rose>", "Vec<Expr>", "Option<Expr>",
-    "G<S1>", "S2", "E1", "Vec<G<u8>>", "Wide", "Vec<Box<u64>>",
+    "G<S1>", "S2", "E1", "Vec<G<u8>>", "Wide", "Vec<Box<u64>>", "DupA", "DupB",
 ];
 
 fn pick_type(rng: &mut Rng, rec_bias: u64) -> String {
@@ -1014,7 +1028,7 @@ fn protocol_task(rng: &mut Rng, fl: &mut Rng, world: usize, c03: bool, rec_bias:
         }
         if c03 && rng.chance(1, 4) {
             if let Some((env, ty, val)) = gen_untyped(rng) {
-                st.push(Stage::ValueArg { env, ty, val });
+                st.push(Stage::ValueArg { env, ty, val, loose: if rng.chance(1, 3) { rng.next_u64() | 1 } else { 0 } });
                 native_only = false;
                 continue;
             }
@@ -1124,7 +1138,7 @@ fn other_task(rng: &mut Rng, fl: &mut Rng, world: usize, c03: bool, rec_bias: u6
                 }
             }
             if !tys.is_empty() {
-                st.push(Stage::ToBytesWithTypes { env, tys, vals });
+                st.push(Stage::ToBytesWithTypes { env, tys, vals, loose: if rng.chance(1, 3) { rng.next_u64() | 1 } else { 0 } });
             } else {
                 st.push(Stage::EnvClear);
             }
@@ -1233,8 +1247,8 @@ pub fn size(sc: &Sc) -> usize {
                 .map(|s| match s {
                     Stage::Arg { size, .. } | Stage::EncodeOne { size, .. } | Stage::ToIdl { size, .. } => 2 + size,
                     Stage::Serialize { plan } => 2 + plan.steps.len() + plan.stop.is_some() as usize,
-                    Stage::ValueArg { ty, val, env } => 2 + ty.nodes() + val.nodes() + env.0.values().map(|t| t.nodes()).sum::<usize>(),
-                    Stage::ToBytesWithTypes { tys, vals, env } => 2 + tys.iter().map(|t| t.nodes()).sum::<usize>() + vals.iter().map(|v| v.nodes()).sum::<usize>() + env.0.values().map(|t| t.nodes()).sum::<usize>(),
+                    Stage::ValueArg { ty, val, env, .. } => 2 + ty.nodes() + val.nodes() + env.0.values().map(|t| t.nodes()).sum::<usize>(),
+                    Stage::ToBytesWithTypes { tys, vals, env, .. } => 2 + tys.iter().map(|t| t.nodes()).sum::<usize>() + vals.iter().map(|v| v.nodes()).sum::<usize>() + env.0.values().map(|t| t.nodes()).sum::<usize>(),
                     _ => 2,
                 })
                 .sum::<usize>()
